@@ -242,8 +242,8 @@ class LaplacianChannel(BaseChannel):
 
         # Handle complex input
         if torch.is_complex(x):
-            noise_real = self._get_laplacian_noise(x.real.shape, x.device) * scale
-            noise_imag = self._get_laplacian_noise(x.imag.shape, x.device) * scale
+            noise_real = self._get_laplacian_noise(x.real.shape, x.device) * scale / (2**0.5)
+            noise_imag = self._get_laplacian_noise(x.imag.shape, x.device) * scale / (2**0.5)
             noise = torch.complex(noise_real, noise_imag)
         else:
             noise = self._get_laplacian_noise(x.shape, x.device) * scale
